@@ -14,7 +14,7 @@ PROP = {
     ],
     "not_decided": [
         "C04-2 ordering comparator of `get_paths` [B(<=3 edges)]: on symbolic triples of solutions the closure is a total preorder (antisymmetric, "
-        "transitive, total) and sorts primarily by `cost`, then by edge count: harness c04_sort_cmp_total_preorder written, CBMC timed out at 900 s "
+        "transitive, total) and sorts primarily by `cost`, then by edge count: harness c04_sort_cmp_total_preorder written, CBMC timed out at 900 s under load; re-tried alone on an idle machine in round 3: CBMC 28 GB + kissat 27 GB RSS and no verdict after 14 min, stopped before the OOM killer "
         "(three 32-byte SegmentID comparisons per edge pair); not registered",
         "C04-3 metadata truthfulness of every built path [B(L)]: interface list = travel-order (egress, ingress) pairs of the encoded hop fields with "
         "the first ingress/last egress omitted; MTU = min over AS MTUs, ingress MTUs of traversed links and peer MTU; `metadata.expiration` = min over "
